@@ -392,7 +392,7 @@ def t_compute_power(eng):
     for k in range(2):
         sx = SObj('Excitation', label='src%d' % k)
         ix = eng.choose(3)
-        sx.fields.update({'idx': ix, 'parent': m, 'voltage': fresh_cx('V%d' % k)})
+        sx.fields.update({'idx': ix, 'parent': m, 'voltage': fresh_cx('V%d' % k), 'geo_tag': None, 'geo_idx': None})
         srcs.append((sx, ix))
     m.fields['sources'] = SList([('conc', [x for x, _ in srcs])])
     eng.inline.update(['Excitation.current', 'Excitation.power'])
@@ -454,7 +454,7 @@ def t_rhs_two(eng):
     srcs = []
     for k, ix in enumerate((i1, i2)):
         sx = SObj('Excitation', label='src%d' % k)
-        sx.fields.update({'idx': ix, 'parent': m, 'voltage': fresh_cx('V%d' % k)})
+        sx.fields.update({'idx': ix, 'parent': m, 'voltage': fresh_cx('V%d' % k), 'geo_tag': None, 'geo_idx': None})
         srcs.append(sx)
     m.fields['sources'] = SList([('conc', srcs)])
     eng.call_qual('Mininec.compute_rhs', [m])
